@@ -72,11 +72,16 @@ pub fn generate(seed: u64, thorough: bool, sink: &mut Sink) -> Vec<String> {
     let big = thorough && rng.chance(1, 10);
     let r_total = if big { 5 + rng.below(8) as usize } else { 1 + rng.below(4) as usize };
     let c_total = if big { 5 + rng.below(8) as usize } else { 1 + rng.below(4) as usize };
-    let nrows = 1 + rng.below(r_total.min(4) as u64) as usize;
+    // one case in five is long: five to seven block rows (of one or two blocks) or five to seven blocks in a row
+    // (of one or two block rows): the variable-arity kernels
+    let long = !big && rng.chance(1, 5);
+    let long_col = long && rng.chance(1, 2);
+    let (r_total, c_total) = if !long { (r_total, c_total) } else if long_col { (5 + rng.below(5) as usize, 1 + rng.below(2) as usize) } else { (1 + rng.below(2) as usize, 5 + rng.below(5) as usize) };
+    let nrows = if long && long_col { 5 + rng.below((r_total - 4).min(3) as u64) as usize } else { 1 + rng.below(r_total.min(4) as u64) as usize };
     let heights = split(r_total, nrows, &mut rng);
     let mut shapes: Vec<Vec<(usize, usize)>> = vec![];
     for h in &heights {
-      let nb = 1 + rng.below(c_total.min(4) as u64) as usize;
+      let nb = if long && !long_col { 5 + rng.below((c_total - 4).min(3) as u64) as usize } else { 1 + rng.below(c_total.min(4) as u64) as usize };
       let widths = split(c_total, nb, &mut rng);
       shapes.push(widths.iter().map(|w| (*h, *w)).collect());
     }
@@ -101,6 +106,7 @@ pub fn generate(seed: u64, thorough: bool, sink: &mut Sink) -> Vec<String> {
     let forms: String = if rng.chance(1, 3) { "v".repeat(nblocks) } else { (0..nblocks).map(|_| *rng.pick(&['v', 'l', 'e', 'l', 'e'])).collect() };
     cases.push(format!("concat\t{}\t{}", rows_txt.join(";;"), forms));
     sink.hit(&format!("tiling:{}rows:{}", nrows, sab));
+    if long { sink.hit(if long_col { "long:block-rows>=5" } else { "long:blocks-in-a-row>=5" }); }
     if it < 3 { sink.sample(cases[cases.len() - 1].clone()); }
   }
   cases
